@@ -234,6 +234,9 @@ impl Property for C02 {
     fn id(&self) -> &'static str {
         "C02"
     }
+    fn fuzzable(&self) -> bool {
+        true
+    }
     fn rule(&self) -> String {
         "cases: (i) a bounded-exhaustive discard matrix: every construct kind x every enclosing position (value kept / discarded / beneath pending operands) x {top level, top-level block, function body}, all enumerated in both tiers; (ii) programs from the typed generator with the discard-heavy profile, including programs that fail at run time. Each is compiled by FML, serialized, decoded by the independent reader and checked by the static validator (constant kinds, labels unique program-wide and local to their method, frame sizes, method ranges partition the code, operand-stack depth by abstract interpretation: never negative, path-independent, exactly 1 at return, 1 (0 after a trailing function definition) at the end of the entry). non-trivial: the bytecode contains >=1 drop and >=1 label; distinct by byte image".into()
     }
